@@ -428,7 +428,8 @@ pub fn multi_behs(case: &MultiCase) -> Vec<Beh> {
         if x == Beh::OkGated && case.gate_after_close {
             // an item waiting for a gate that opens only after close() was called blocks its listener: flush_and_cancel_executor() (which
             // flushes every listener) and the pooled kinds' retried sends must not have to wait for it
-            if i < cancel_at || i < pre || (case.kind.is_ogre_arc() && i + MULTI_B < n) { x = Beh::OkYields(1); }
+            // (old events may wait for it when nothing calls flush_and_cancel_executor(): close() then lands in the middle of the replay of the old events)
+            if i < cancel_at || (i < pre && case.cancel.is_some()) || (case.kind.is_ogre_arc() && i + MULTI_B < n) { x = Beh::OkYields(1); }
         }
         x
     }).collect()
